@@ -8,7 +8,9 @@
      ok    : the implementation satisfies the property - judged without the model: signature = map rho of the
              declared parameters, printed renamed action = Spec.Rename.ren_action rho (printed original action) up
              to the order of conjuncts, renamed behaves as the original on every probe - whenever the mapping is an
-             admissible renaming of that action (decided here on the spec's reading, not trusted from the generator).
+             admissible renaming of that action (decided here on the spec's reading, not trusted from the generator),
+             and also when it is an injective renaming that lands on a quantified variable or a constant (the class
+             of the recorded finding D75, v_known).
              The signature unit also demands that the side condition of theorem C18_rename (renaming_ok, computed on
              the model's reading) holds whenever the oracle treats the mapping as admissible, so that every judged
              case lies inside the proved statement.
@@ -192,6 +194,17 @@ Definition admissibleb (consts : list string) (m : list (string * string)) (a : 
   forallb (fun p => String.eqb (rho p) p || negb (str_in (rho p) (bound_action a))) ps &&
   forallb (fun p => String.eqb (rho p) p || negb (str_in p consts)) ps.
 
+(* The recorded finding D75: the mapping is a renaming of the parameters (moves them only, injective on them)
+   but sends one to the name of a quantified variable of the action or of a constant of the domain.  The library
+   does not notice; the renamed action can mean something else (capture).  Such cases are JUDGED (they are
+   injective maps, the property's wording covers them) and classified as the known class. *)
+Definition captureb (consts : list string) (m : list (string * string)) (a : action) : bool :=
+  let rho := rho_of m in
+  let ps := params a in
+  forallb (fun kv => str_in (fst kv) ps || String.eqb (rho (fst kv)) (fst kv)) m &&
+  injective_on rho (dedup ps) &&
+  existsb (fun p => negb (String.eqb (rho p) p) && (str_in (rho p) (bound_action a) || str_in (rho p) consts)) ps.
+
 (* ---------- model answers ---------- *)
 Definition default_order (ga : gaction) : list nat := seq 0 (List.length (ga_groups ga)).
 Definition default_uorder (ga : gaction) : list nat := seq 0 (List.length (ma_univ (ga_action ga))).
@@ -216,6 +229,8 @@ Definition judge (c : rcase) : list verdict :=
   let sa := match sd with Some d => match find_action d (r_action c) with Some a => Some (d, a) | None => None end
                         | None => None end in
   let adm := match sa with Some (d, a) => admissibleb (map fst (sd_consts d)) m a | None => false end in
+  let cap := match sa with Some (d, a) => negb adm && captureb (map fst (sd_consts d)) m a | None => false end in
+  let judged := adm || cap in
   let mr := match ma with Some (d, a) => Some (d, change_signature m a) | None => None end in   (* renamed once *)
   (* signature *)
   let v_sig :=
@@ -227,11 +242,11 @@ Definition judge (c : rcase) : list verdict :=
                       (* every case the oracle judges lies inside the theorem: C18_rename's side condition holds *)
                       (negb adm || renaming_ok d a m)
                   | None => false end;
-       v_ok := negb adm ||
+       v_ok := negb judged ||
                match sa with
                | Some (_, a) => obs_eqb sig_eqb (Returned (map (fun pt => (rho (fst pt), snd pt)) (a_params a))) (r_sig c)
                | None => false end;
-       v_known := false |} in
+       v_known := cap |} in
   (* text *)
   let v_txt :=
     {| v_agree := match ma, r_print1 c with
@@ -242,7 +257,7 @@ Definition judge (c : rcase) : list verdict :=
                       | _, _ => false
                       end
                   | _, _ => false end;
-       v_ok := negb adm ||
+       v_ok := negb judged ||
                match r_print1 c with
                | Returned t1 =>
                    match spec_action_of_text c (r_print0 c), spec_action_of_text c t1 with
@@ -250,7 +265,7 @@ Definition judge (c : rcase) : list verdict :=
                    | _, _ => false
                    end
                | Raised => false end;
-       v_known := false |} in
+       v_known := cap |} in
   (* probes *)
   let v_probes :=
     flat_map (fun q =>
@@ -262,14 +277,14 @@ Definition judge (c : rcase) : list verdict :=
       [ {| v_agree := match mr with
                       | Some (d, _) => obs_eqb Bool.eqb (m_app c d g q) (q_app1 q)
                       | None => false end;
-           v_ok := negb adm || obs_eqb Bool.eqb (q_app1 q) (q_app0 q);
-           v_known := false |};
+           v_ok := negb judged || obs_eqb Bool.eqb (q_app1 q) (q_app0 q);
+           v_known := cap |};
         {| v_agree := negb consistent_probe ||
                       match mr with
                       | Some (d, _) => obs_eqb state_equiv (m_succ c d g q) (q_succ1 q)
                       | None => false end;
-           v_ok := negb adm || negb consistent_probe || obs_eqb state_equiv (q_succ1 q) (q_succ0 q);
-           v_known := false |} ]) (r_probes c) in
+           v_ok := negb judged || negb consistent_probe || obs_eqb state_equiv (q_succ1 q) (q_succ0 q);
+           v_known := cap |} ]) (r_probes c) in
   v_sig :: v_txt :: v_probes.
 
 Definition run (cs : list rcase) : string := t2s (map verdict_char (flat_map judge cs)).
